@@ -299,6 +299,17 @@ def r13_3(run):
     run.ob("R13.3", loc(fi, graphs[0]), fi.short, "trial `self.data.shape = newshape` dominates graph duplication", ok_t,
            "an incompatible shape raises before any placeholder is created" if ok_t else
            "the graph is duplicated before the new shape has been validated")
+    # ... and every write to the tensor's own state made by the setter (dropping the gradient, resetting a stale base) as well: a rejected
+    # `x.shape = bad` must leave x.grad / x.base alone
+    writes = [cfg.stmt_node_containing(c) for c in calls_named(fi.node, "null_grad") if norm(c.func.value) == "self"]
+    writes += [cfg.node_for(n) for n in own_nodes(fi.node) if isinstance(n, ast.Assign) and any(
+        isinstance(t_, ast.Attribute) and norm(t_.value) == "self" and t_.attr in ("_grad", "_view_grad", "_base", "_creator") for t_ in n.targets)]
+    writes = [w for w in writes if w is not None and cfg.reachable(w)]
+    for w in writes:
+        ok_w = bool(trial) and any(cfg.dominates(cfg.node_for(t), w) for t in trial)
+        run.ob("R13.3", loc(fi, cfg.stmt[w]), fi.short, f"`{norm(cfg.stmt[w])[:50]}` only after the new shape was validated", ok_w,
+               "dominated by the trial assignment (which raises for an incompatible shape)" if ok_w else
+               "a rejected shape assignment has already dropped the tensor's gradient / reset its base")
     ok_u = False
     for t in trial:
         for u in undo:
